@@ -73,3 +73,8 @@ chk("C11", "E4 history explorer",
     "All histories of length <= 3 (4 on a compact alphabet) over {derivations, x[key]=value for every key/value kind, ufunc out=/where=, +=, compute/keys/graph/to_delayed/persist/pickle touches} are executed from the reset state; after each history every pool member computes to its reference, x's keys and to_delayed() agree with compute(), and the source arrays are unchanged.",
     "Trusted: NumPy with copy semantics at derivation as the reference model; a derivation returning the same object is an alias, not another collection; masked assignment only as the last mutation.",
     "DESIGN.md §4 C11")
+chk("C02", "E1 program explorer + rewrite tracer",
+    "bounded exhaustive program exploration; every phase executed as-is, every fired rewrite instance re-executed (before vs after), fusion provenance per output block",
+    "For every program of the bounded E1 space (incl. shared subtrees and multi-leaf pools) the raw-lowered, simplified+lowered and fused forms are executed as they are and compared with NumPy and each other; every (before, after) pair produced by any _simplify_down/_simplify_up/_lower hook during optimization is executed by raw lowering and must denote the same array; for fused roots every output block must read the same external input blocks as in the unfused graph. Evidence lists fire counts per rule and the rules that never fired.",
+    "Trusted: the 'before' expression evaluated by lowering without simplification; NumPy for phase values.",
+    "DESIGN.md §4 C02")
